@@ -221,6 +221,26 @@ theorem CoreStep.window {cfg : Cfg} {c c' : Core} (h : CoreStep cfg c c') :
         split <;> simp [llGapCount]
 
 
+/-- playlist-level reading of "window of `st'` = window of `st` minus `k` head entries plus `new`" -/
+theorem playlists_of_window {st st' : State} {si : Nat} (hI : StreamInv st.cfg (st.stream si))
+    (hI' : StreamInv st'.cfg (st'.stream si)) (hcfg : st'.cfg = st.cfg) {k : Nat} {new : List (Bool × Int)}
+    (hs : (core (st'.stream si)).shape = ((core (st.stream si)).shape ++ new).drop k)
+    (hd : (core (st'.stream si)).dc = (core (st.stream si)).dc + k)
+    (hk : k ≤ ((core (st.stream si)).shape ++ new).length) :
+    (mediaPlaylist st' si false).mediaSeq = (mediaPlaylist st si false).mediaSeq + k ∧
+    (mediaPlaylist st' si false).segments.length + k = (mediaPlaylist st si false).segments.length + new.length ∧
+    ∀ j, j + k < (mediaPlaylist st si false).segments.length →
+      ((mediaPlaylist st' si false).segments[j]?).map PlSeg.core =
+        ((mediaPlaylist st si false).segments[j + k]?).map PlSeg.core := by
+  rw [mp_mediaSeq, mp_mediaSeq, mp_length_full hI, mp_length_full hI']
+  refine ⟨hd, ?_, fun j hj => ?_⟩
+  · have := congrArg List.length hs
+    simp only [core, List.length_map, List.length_drop, List.length_append] at this hk
+    omega
+  · rw [mp_get_full hI', mp_get_full hI]
+    rw [hcfg] at hI'
+    exact win_rel hI hI' hs hd j hj
+
 /-! ### parts -/
 
 theorem Consec.eq_range' {a : Nat} {l : List Nat} (h : Consec a l) : l = List.range' a l.length := by
